@@ -204,12 +204,16 @@ def read_cgsmiles(pattern):
         if stop < len(pattern) and pattern[stop] == '|':
             # eon => end of next
             # we find the next character that starts a new residue, ends
-            # a branch or ends the complete pattern
-            eon = _find_next_character(pattern, ['[', ')', '(', '}'], stop)
+            # a branch, ends the complete pattern or is a bond order symbol
+            eon = _find_next_character(pattern, ['[', ')', '(', '}'] + list(symbol_to_order.keys()), stop)
             # between the expansion character and the eon character
             # is any number that corresponds to the number of times
             # (i.e. monomers) that this atom should be added
             n_mon = int(pattern[stop+1:eon])
+            # a bond order symbol after the expansion is the order of the
+            # bond to the next residue exactly as it is without expansion
+            if eon < len(pattern) and pattern[eon] in symbol_to_order:
+                bond_order = symbol_to_order[pattern[eon]]
         else:
             n_mon = 1
 
@@ -232,7 +236,9 @@ def read_cgsmiles(pattern):
             if prev_node is not None:
                 mol_graph.add_edge(prev_node, current, order=prev_bond_order)
 
-            prev_bond_order = bond_order
+            # consecutive copies of an expanded residue are
+            # connected with the default bond order
+            prev_bond_order = default_bond_order
 
             # here we have a double edge
             for cycle_edge in cycle_edges:
@@ -246,6 +252,11 @@ def read_cgsmiles(pattern):
 
             prev_node = current
             current += 1
+
+        # the bond order symbol after the residue belongs
+        # to the bond with the next residue
+        if n_mon > 0:
+            prev_bond_order = bond_order
 
         cycle_edges = []
         # here we check if the residue considered before is the
